@@ -193,6 +193,10 @@ def run(ctx, rep):
 
     cp = F.fn(CHECK_PROGRAM)
     fp = F.fn(FOR_PROGRAM)
+    # check_program split into per-resource helpers, for_program with hoisted locals: private helpers are spliced in
+    SIZE_VOCAB = ("check_max_cells", "check_max_frames", "check_program", "bit_width", "bounds", "arrow", "with_capacity", "from_elem")
+    cp = F.inlined(cp, SIZE_VOCAB) if cp is not None else None
+    fp = F.inlined(fp, SIZE_VOCAB) if fp is not None else None
     checked = {"cells": set(), "frames": set()}
     if cp is None:
         rep.anchor("C07.size", CHECK_PROGRAM)
